@@ -451,7 +451,10 @@ impl IoLoop {
                 ConnectionState::ServerClosing(_)
                 | ConnectionState::ClientException
                 | ConnectionState::ClientClosed => {
-                    unreachable!("ch0 slot cannot be readable after it is dropped")
+                    // The channel 0 slot was dropped earlier in this same batch of events
+                    // (e.g., we just processed a server-initiated close); this is a stale
+                    // wakeup for it. Same situation as handle_channel_readable() finding
+                    // its slot gone: nothing to do, the dropped receivers tell the callers.
                 }
             },
             ALLOC_CHANNEL => match &state {
@@ -461,7 +464,10 @@ impl IoLoop {
                 ConnectionState::ServerClosing(_)
                 | ConnectionState::ClientException
                 | ConnectionState::ClientClosed => {
-                    unreachable!("ch0 slot cannot be readable after it is dropped")
+                    // The channel 0 slot was dropped earlier in this same batch of events
+                    // (e.g., we just processed a server-initiated close); this is a stale
+                    // wakeup for it. Same situation as handle_channel_readable() finding
+                    // its slot gone: nothing to do, the dropped receivers tell the callers.
                 }
             },
             Token(0) => match &state {
@@ -471,7 +477,10 @@ impl IoLoop {
                 ConnectionState::ServerClosing(_)
                 | ConnectionState::ClientException
                 | ConnectionState::ClientClosed => {
-                    unreachable!("ch0 slot cannot be readable after it is dropped")
+                    // The channel 0 slot was dropped earlier in this same batch of events
+                    // (e.g., we just processed a server-initiated close); this is a stale
+                    // wakeup for it. Same situation as handle_channel_readable() finding
+                    // its slot gone: nothing to do, the dropped receivers tell the callers.
                 }
             },
             Token(n) if n <= u16::max_value() as usize => {
